@@ -1,50 +1,50 @@
 //! SplitMix64: tiny, seedable, splittable PRNG (no third-party crates).
 
 #[derive(Clone, Debug)]
-pub struct Rng(pub u64);
+pub struct Rng(pub std::cell::Cell<u64>);
 
 impl Rng {
     pub fn new(seed: u64) -> Self {
-        let mut r = Rng(seed ^ 0x9E37_79B9_7F4A_7C15);
+        let r = Rng(std::cell::Cell::new(seed ^ 0x9E37_79B9_7F4A_7C15));
         r.next();
         r
     }
     /// Independent sub-stream (e.g. per shard, per generator).
     pub fn fork(&self, k: u64) -> Rng {
-        let mut r = Rng(self.0 ^ k.wrapping_mul(0xD6E8_FEB8_6659_FD93).rotate_left(17) ^ 0xA076_1D64_78BD_642F);
+        let r = Rng(std::cell::Cell::new(self.0.get() ^ k.wrapping_mul(0xD6E8_FEB8_6659_FD93).rotate_left(17) ^ 0xA076_1D64_78BD_642F));
         r.next();
         r.next();
         r
     }
     #[inline]
-    pub fn next(&mut self) -> u64 {
-        self.0 = self.0.wrapping_add(0x9E37_79B9_7F4A_7C15);
-        let mut z = self.0;
+    pub fn next(&self) -> u64 {
+        self.0.set(self.0.get().wrapping_add(0x9E37_79B9_7F4A_7C15));
+        let mut z = self.0.get();
         z = (z ^ (z >> 30)).wrapping_mul(0xBF58_476D_1CE4_E5B9);
         z = (z ^ (z >> 27)).wrapping_mul(0x94D0_49BB_1331_11EB);
         z ^ (z >> 31)
     }
     /// Uniform in [0, n) (n > 0).
     #[inline]
-    pub fn below(&mut self, n: u64) -> u64 {
+    pub fn below(&self, n: u64) -> u64 {
         ((self.next() as u128 * n as u128) >> 64) as u64
     }
     /// Uniform in [lo, hi] inclusive.
     #[inline]
-    pub fn range(&mut self, lo: i64, hi: i64) -> i64 {
+    pub fn range(&self, lo: i64, hi: i64) -> i64 {
         debug_assert!(lo <= hi);
         lo + self.below((hi - lo) as u64 + 1) as i64
     }
     #[inline]
-    pub fn chance(&mut self, num: u64, den: u64) -> bool {
+    pub fn chance(&self, num: u64, den: u64) -> bool {
         self.below(den) < num
     }
-    pub fn pick<'a, T>(&mut self, xs: &'a [T]) -> &'a T {
+    pub fn pick<'a, T>(&self, xs: &'a [T]) -> &'a T {
         &xs[self.below(xs.len() as u64) as usize]
     }
     /// A u64 with a "structured" distribution: random bit length, and
     /// sometimes few set bits / runs of ones.
-    pub fn structured_u64(&mut self) -> u64 {
+    pub fn structured_u64(&self) -> u64 {
         let bits = self.range(1, 64) as u32;
         let v = match self.below(6) {
             0 => u64::MAX,
@@ -62,13 +62,13 @@ impl Rng {
         let v = if bits == 64 { v } else { v & ((1u64 << bits) - 1) };
         v | (1u64 << (bits - 1))
     }
-    pub fn digit(&mut self) -> u8 {
+    pub fn digit(&self) -> u8 {
         b'0' + self.below(10) as u8
     }
-    pub fn nz_digit(&mut self) -> u8 {
+    pub fn nz_digit(&self) -> u8 {
         b'1' + self.below(9) as u8
     }
-    pub fn digits(&mut self, n: usize) -> Vec<u8> {
+    pub fn digits(&self, n: usize) -> Vec<u8> {
         (0..n).map(|_| self.digit()).collect()
     }
 }
